@@ -113,7 +113,7 @@ pub fn exec(line: &str) -> String {
             }
             None => "bad-request".to_string(),
         },
-        _ => match crate::ops_access::exec(f.as_slice()).or_else(|| crate::ops_edit::exec(f.as_slice())).or_else(|| crate::ops_order::exec(f.as_slice())).or_else(|| crate::ops_text::exec(f.as_slice())).or_else(|| crate::ops_path::exec(f.as_slice())) {
+        _ => match crate::ops_access::exec(f.as_slice()).or_else(|| crate::ops_edit::exec(f.as_slice())).or_else(|| crate::ops_order::exec(f.as_slice())).or_else(|| crate::ops_text::exec(f.as_slice())).or_else(|| crate::ops_path::exec(f.as_slice())).or_else(|| crate::ops_select::exec(f.as_slice())) {
             Some(r) => r,
             None => "bad-request".to_string(),
         },
